@@ -107,6 +107,16 @@ theorem compiled_call_cfi {m std : Module} {limit : Nat} {p : Program}
       (exec (Prog.ofProgram p) gas (.call f) s) :=
   C04.call_cfi (C10b.compile_wf hc hsz hdata hentry hd) gas f s hg
 
+/-- the sharper form (= `C04.call_cfi_eq`): `run_function` returns with exactly the call stack it
+    was called on -/
+theorem compiled_call_cfi_eq {m std : Module} {limit : Nat} {p : Program}
+    (hc : compile m std limit = .ok p) (hsz : p.bytecode.size < 2 ^ 31) (hdata : p.data.size < 2 ^ 32)
+    (hentry : C10.NoEntryRef m std limit p) (hd : C10b.ClosureHandlesDistinct m std limit p)
+    (gas : Nat) (f : Val) (s : VmState) (hg : C04.GoodFrames p s) :
+    ExecPost (fun fs' => fs' = s.frames ∧ Good (C04.Start p) fs') C04.Allowed
+      (exec (Prog.ofProgram p) gas (.call f) s) :=
+  C04.call_cfi_eq (C10b.compile_wf hc hsz hdata hentry hd) gas f s hg
+
 /-- the loop `run` starts ends with a non-empty call stack, unless it fails (= `C04.frames_nonempty`) -/
 theorem compiled_frames_nonempty {m std : Module} {limit : Nat} {p : Program}
     (hc : compile m std limit = .ok p) (hsz : p.bytecode.size < 2 ^ 31) (hdata : p.data.size < 2 ^ 32)
